@@ -124,9 +124,6 @@ PINS = {
     (ROOT, 'requeue', "log.debug('Need to requeue:: %r', dict(Counter(to_requeue)))"): None,
     (ROOT, 'requeue', "trials = {k: self._data[k]['trials'] for k in self._data.keys()}"): None,
     (ROOT, 'resume', "log.debug('Resumed queue. Current timestamp is %.3f.', self.get_ts())"): None,
-    # collections.Counter: one trial back per occurrence of the key (grouped by key, first occurrence first)
-    (ROOT, 'requeue', "for key, count in Counter(to_requeue).items():\n    log.debug('Adding %d trials for key %s back to queue', count, key)\n"
-                      "    self._data[key]['trials'] += count"): "for key in to_requeue:\n    self._data[key]['trials'] += 1",
 }
 
 # whole functions / methods whose text (docstrings removed) the reading above relies on
@@ -730,6 +727,13 @@ class _Fn:
         pre = []
         if ast.unparse(s.iter) == 'self._data.items()' and ast.unparse(s.target) == '(key, data)':
             x, xt, l = 'data', 'entry', '(f_data self)'        # the key is not bound: a use of it below is an unknown name
+        elif isinstance(s.target, ast.Tuple) and len(s.target.elts) == 2 and all(isinstance(n, ast.Name) for n in s.target.elts) \
+                and isinstance(s.iter, ast.Call) and not s.iter.args and not s.iter.keywords and isinstance(s.iter.func, ast.Attribute) \
+                and s.iter.func.attr == 'items' and isinstance(s.iter.func.value, ast.Call) and ast.unparse(s.iter.func.value.func) == 'Counter' \
+                and len(s.iter.func.value.args) == 1 and not s.iter.func.value.keywords:
+            # for key, count in Counter(l).items(): (key, number of occurrences), keys in order of first occurrence
+            l = f'(py_counter {self.typed(s.iter.func.value.args[0], env, pre, "zlist")})'
+            x, xt, pair = '_kc', 'pair', [n.id for n in s.target.elts]
         elif isinstance(s.target, ast.Name):
             l, lt = self.expr(s.iter, env, pre)
             if lt not in ('zlist', 'infos'):
@@ -742,6 +746,14 @@ class _Fn:
         inner['@checked'] = inner['@checked'] - {x}
         after = {k: v for k, v in env.items() if k not in (x, 'key' if x == 'data' else x)}
         after['@checked'] = after['@checked'] - {x, 'key'}
+        unpack = ''
+        if x == '_kc':
+            for n, proj in zip(pair, ('fst', 'snd')):
+                inner[n] = 'Z'
+                inner['@checked'] = inner['@checked'] - {n}
+                after.pop(n, None)
+                after['@checked'] = after['@checked'] - {n}
+                unpack += f'{pad}  let v_{n} := {proj} v__kc in\n'
         if isinstance(one, ast.If) and not one.orelse and len(one.body) == 1 and isinstance(one.body[0], ast.Return):
             p2 = []
             c = self.typed(one.test, inner, p2, 'bool')
@@ -769,7 +781,7 @@ class _Fn:
             if isinstance(node, ast.Call) and isinstance(node.func, ast.Attribute) and node.func.attr in ('append', 'insert', 'remove', 'pop') \
                     and isinstance(node.func.value, ast.Name):
                 carried.add(node.func.value.id)
-        carried = sorted(c for c in carried if c in env and c != x)
+        carried = sorted(c for c in carried if c in env and c != x and not (x == '_kc' and c in pair))
         if len(carried) > 1 or pre:
             self.gap(s, 'a for loop that changes more than one local')
         acc = carried[0] if carried else None
@@ -782,9 +794,9 @@ class _Fn:
         body = self.block(list(s.body), inner, {'end': done, 'cont': done, 'brk': None}, ind + 1)
         self.after_call(after)
         if acc:
-            return (f'{pad}gbind (gfoldl (fun self v_{acc} v_{x} =>\n{body}) {l} self v_{acc}) (fun self v_{acc} =>\n'
+            return (f'{pad}gbind (gfoldl (fun self v_{acc} v_{x} =>\n{unpack}{body}) {l} self v_{acc}) (fun self v_{acc} =>\n'
                     f'{self.block(rest, after, ctx, ind)})')
-        return (f'{pad}gbind (gfoldl (fun self (_ : unit) v_{x} =>\n{body}) {l} self tt) (fun self _ =>\n'
+        return (f'{pad}gbind (gfoldl (fun self (_ : unit) v_{x} =>\n{unpack}{body}) {l} self tt) (fun self _ =>\n'
                 f'{self.block(rest, after, ctx, ind)})')
 
     def translate(self, fn):
